@@ -279,14 +279,17 @@ def ctorsOfType (fuel : Nat) (reg : St) (ty : Node) : List Ctor :=
           some (elems.foldl (fun acc e => ctorUnion acc (ctorsOfType fuel reg (tupleElemType e))) [])
         | _, _ => none
       match arrayLike with
+      | some [] => [.anyValue]      -- the element type has no values (`never`): nothing to check, and the empty list is never emitted for an access
       | some cs => cs
       | none =>
       match propsOfType fuel reg objT, literalStrings fuel reg idxT with
       | .ok props, some keys =>
         let sel := props.filter fun p => keys.contains (specKeyName p.key)
         if sel.isEmpty then viaModel else
-        sel.foldl (fun acc p => ctorUnion acc
-          (if p.isMethod then [.named "Function"] else match p.ty with | some t => ctorsOfType fuel reg t | none => [.anyValue])) []
+        (match sel.foldl (fun acc p => ctorUnion acc
+          (if p.isMethod then [.named "Function"] else match p.ty with | some t => ctorsOfType fuel reg t | none => [.anyValue])) [] with
+         | [] => [.anyValue]       -- every selected property has type `never`
+         | cs => cs)
       | _, _ => viaModel
     | .mk .tsTypeRef _ [.mk .ident (n :: b :: _) _, tparams] =>
       match lookupReg reg.typeAliases (n, b) with
